@@ -14,9 +14,14 @@ Inductive case :=
 | CCeeU (data : bytes) (o : option (N * bytes))
 (* one TLS 1.3 handshake: the client's offered ALPN list and Config.ApplicationSettings, the server's EncryptedExtensions
    plaintext; observed: handshake completed, alert the client sent (255 none), ConnectionState.PeerApplicationSettings,
-   NegotiatedProtocol, the client's EncryptedExtensions as read by the server (None = the next client message was not one) *)
+   NegotiatedProtocol, the client's EncryptedExtensions as read by the server (None = the next client message was not one),
+   whether the connection was resumed with a PSK *)
 | CRun (offered : list bytes) (settings : list (bytes * bytes)) (ee : bytes)
-       (completed : bool) (alert : N) (peer proto : bytes) (cee : option bytes)
+       (completed : bool) (alert : N) (peer proto : bytes) (cee : option bytes) (resumed : bool)
+(* a completed TLS 1.3 handshake in which the server sent ALPS on code point cp and the client sent ncert certificate messages
+   (0 without a CertificateRequest, 1 = empty Certificate, 2 = Certificate + CertificateVerify): the handshake type of the first
+   message of the client's second flight as the server met it right after its own Finished *)
+| CFlight (cp ncert first : N)
 (* one TLS <= 1.2 handshake against a server whose ServerHello carried an ALPS extension *)
 | CRun12 (vers : N) (completed : bool) (peer : bytes) (cee : option bytes).
 
@@ -42,8 +47,8 @@ Definition check (c : case) : bool :=
       | Ok (Some r), Some (cp, s) => (ee_codepoint r =? cp) && bytes_eqb (ee_settings r) s
       | Ok None, None => true
       | _, _ => false end
-  | CRun offered settings ee completed alert peer proto cee =>
-      match client_read_ee true (mkClient V13 offered settings []) ee with
+  | CRun offered settings ee completed alert peer proto cee resumed =>
+      match client_read_ee_conn resumed true (mkClient V13 offered settings []) ee with
       | Ok st =>
           match send_client_ee st with
           | Ok l => completed && bytes_eqb peer (st_peer st) && bytes_eqb proto (st_proto st)
@@ -51,6 +56,10 @@ Definition check (c : case) : bool :=
           | _ => negb completed end
       | Err a => negb completed && (alert =? a)
       | Panic _ => false end
+  | CFlight cp ncert first =>
+      match client_flight (fun _ => []) [] (mkSt [] [] cp []) (repeat [11; 0; 0; 0] (N.to_nat ncert)) with
+      | Ok (m :: _, _) => nth 0 m 255 =? first
+      | _ => false end
   | CRun12 vers completed peer cee =>
       (vers <? V13) && (negb completed ||
         let st := sh12_alps_state [] None in
